@@ -280,6 +280,7 @@ def Stmt.importsOk : Stmt → Bool
   | .letv _ _ => true
   | .block b => Block.importsOk b
   | .probe _ _ _ => true
+  | .param _ _ => true
 end
 
 def Item.importsOk : Item → Bool
@@ -342,7 +343,22 @@ theorem checkStmt_noPanic (s : Nat) :
       step_wrap_other inv s _ hs (by intro n pm hc; cases hc)
     exact checkBlock_noPanic _ b _ s1.1 (by simp only [wrap_snd, wrap_length]; omega) hok q
   | .probe id k p, st, _, _, _ => by intro q h; cases h
+  | .param x tag, st, _, _, _ => by intro q h; cases h
 end
+
+theorem declareParams_noPanic (s : Nat) :
+    ∀ (ps : List (Name × Nat)) (g : Graph), NoPanic (declareParams s ps g) := by
+  intro ps
+  induction ps with
+  | nil => intro g q h; cases h
+  | cons p rest ih =>
+    intro g q
+    obtain ⟨x, tag⟩ := p
+    unfold declareParams
+    simp only [Graph.insertDecl]
+    cases g.decl ⟨s, x⟩ with
+    | some d => intro h; cases h
+    | none => exact ih _ q
 
 theorem checkItems_noPanic (s : Nat) :
     ∀ (items : List Item) (st : St), Inv st.g → s < st.g.scopes.length →
@@ -359,16 +375,23 @@ theorem checkItems_noPanic (s : Nat) :
       simp only
       have s0 : Step st.g (st.g.wrap s (.function n)).1 :=
         step_wrap_other inv s _ hs (by intro a b hc; cases hc)
-      have hb := checkBlock_noPanic (st.g.wrap s (.function n)).2 body
-        { st with g := (st.g.wrap s (.function n)).1 } s0.1
-        (by simp only [wrap_snd, wrap_length]; omega) hok.1
-      cases hc : checkBlock (st.g.wrap s (.function n)).2 body { st with g := (st.g.wrap s (.function n)).1 } with
-      | panic x => exact absurd hc (hb x)
+      have hp := declareParams_noPanic (st.g.wrap s (.function n)).2 (paramsOf body) (st.g.wrap s (.function n)).1
+      cases hpar : declareParams (st.g.wrap s (.function n)).2 (paramsOf body) (st.g.wrap s (.function n)).1 with
+      | panic x => exact absurd hpar (hp x)
       | err e => intro h; cases h
-      | ok st1 =>
-        have s1 := step_checkBlock _ body _ st1 s0.1 (by simp only [wrap_snd, wrap_length]; omega) hc
-        have s01 := step_trans s0 s1
-        exact ih st1 s1.1 (Nat.lt_of_lt_of_le hs s01.2.1) hok.2 q
+      | ok gp =>
+        simp only
+        obtain ⟨sp, hlp⟩ := step_declareParams _ _ _ gp s0.1 hpar
+        have hlen : (st.g.wrap s (.function n)).2 < gp.scopes.length := by
+          simp only [wrap_snd]; rw [hlp, wrap_length]; omega
+        have hb := checkBlock_noPanic (st.g.wrap s (.function n)).2 body { st with g := gp } sp.1 hlen hok.1
+        cases hc : checkBlock (st.g.wrap s (.function n)).2 body { st with g := gp } with
+        | panic x => exact absurd hc (hb x)
+        | err e => intro h; cases h
+        | ok st1 =>
+          have s1 := step_checkBlock _ body _ st1 sp.1 hlen hc
+          have s01 := step_trans s0 (step_trans sp s1)
+          exact ih st1 s1.1 (Nat.lt_of_lt_of_le hs s01.2.1) hok.2 q
     | const n tag =>
       unfold checkItems
       simp only
